@@ -230,4 +230,130 @@ theorem C05_week_in_month_rejected :
     parsePeriod "week:2015-01".toList = .error "period" ∧ parsePeriod "week:2015-01:3".toList = .error "period" ∧
     parsePeriod "month:2015-W01".toList = .ok ⟨.month, ⟨2014, 12, 29⟩, 1⟩ := by decide +kernel
 
+/-! ## `periods.instant(value)` / `periods.period(value)` on every accepted argument type -/
+
+/-- An `int` year builds the same instant and the same period as its decimal text: `period(2021)` is
+    `period("2021")`, the calendar year 2021. -/
+theorem C05_int_is_its_text (y : Nat) (h1 : 1000 ≤ y) (h2 : y ≤ 9999) :
+    periodOf (.int y) = .ok ⟨.year, ⟨y, 1, 1⟩, 1⟩ ∧
+    periodOf (.str (intText y)) = periodOf (.int y) ∧
+    instantOf (.str (intText y)) = instantOf (.int y) := by
+  have hl := lex_y y h1 h2
+  have hd := dateOk_mk y 1 1 (by omega) (by omega) (by omega) (by omega) (by omega) (by have := dim_ge (y : Int) 1; omega)
+  refine ⟨rfl, ?_, ?_⟩
+  · show parsePeriod (intText y) = _
+    rw [intText_nat, parse_plain' _ _ hl, iso_y y h1 h2]; rfl
+  · show parseInstant (intText y) = _
+    rw [intText_nat]; unfold parseInstant; rw [hl]
+    simp only [tokDate, hd, if_true]; rfl
+
+example : periodOf (.int 2021) = parsePeriod "2021".toList := by decide +kernel
+
+/-- A sequence of one to three integers is padded with ones, a longer one is cut after the third:
+    `instant((2021,))` is 1 January 2021, `instant((2021, 9))` is 1 September 2021; the empty sequence
+    is refused.  A one-element sequence is the `int`, a three-element one is the `Instant` itself. -/
+theorem C05_instant_of_sequence (y m d : Int) (more : List Int) :
+    instantOf (.seq []) = .error "instant" ∧
+    instantOf (.seq [y]) = .ok ⟨y, 1, 1⟩ ∧ instantOf (.seq [y]) = instantOf (.int y) ∧
+    instantOf (.seq [y, m]) = .ok ⟨y, m, 1⟩ ∧
+    instantOf (.seq (y :: m :: d :: more)) = .ok ⟨y, m, d⟩ ∧
+    instantOf (.seq [y, m, d]) = instantOf (.instant ⟨y, m, d⟩) :=
+  ⟨rfl, rfl, rfl, rfl, rfl, rfl⟩
+
+/-- An `Instant`, a `datetime.date` and an `int` year become the one-day period (the calendar year)
+    beginning there: its days are exactly that day (that year). -/
+theorem C05_period_of_instant (c : Date) (y : Int) :
+    (∃ p, periodOf (.instant c) = .ok p ∧ p.unit = .day ∧ p.lo = ord c ∧ p.hi = ord c) ∧
+    (∃ p, periodOf (.date c) = .ok p ∧ p.unit = .day ∧ p.lo = ord c ∧ p.hi = ord c) ∧
+    (∃ p, periodOf (.int y) = .ok p ∧ p.unit = .year ∧ p.lo = ord ⟨y, 1, 1⟩ ∧ p.hi = ord ⟨y, 12, 31⟩) := by
+  refine ⟨⟨_, rfl, rfl, rfl, ?_⟩, ⟨_, rfl, rfl, rfl, ?_⟩, ⟨_, rfl, rfl, rfl, ?_⟩⟩
+  · simp only [Period.hi]; omega
+  · simp only [Period.hi]; omega
+  · rw [hi_year_jan]; congr 2; omega
+
+/-- The two constructors agree: whenever `period(value)` builds a period from something that also
+    reads as an instant (everything but the `unit:date[:size]` texts and `eternity`), `instant(value)`
+    is the start of that period. -/
+theorem C05_period_starts_at_instant (v : PyVal) (p : Period) (h : periodOf v = .ok p)
+    (hs : ∀ cs, v = .str cs → (lexIso cs).isSome) : instantOf v = .ok p.start := by
+  cases v with
+  | none => cases h
+  | int i => injection h with h; subst h; rfl
+  | str cs =>
+    have hl := hs cs rfl
+    cases hlex : lexIso cs with
+    | none => rw [hlex] at hl; cases hl
+    | some t =>
+      have h' : parsePeriod cs = .ok p := h
+      rw [parse_plain' cs t hlex] at h'
+      unfold parseIsoPeriod at h'
+      simp only [hlex] at h'
+      show parseInstant cs = _
+      unfold parseInstant
+      simp only [hlex]
+      cases hd : tokDate t with
+      | none => simp only [hd] at h'; cases h'
+      | some c =>
+        cases hu : tokUnit t with
+        | none => simp only [hd, hu] at h'; cases h'
+        | some u => simp only [hd, hu] at h'; injection h' with h'; subst h'; rfl
+  | instant c => injection h with h; subst h; rfl
+  | period q => injection h with h; subst h; rfl
+  | date c => injection h with h; subst h; rfl
+  | seq xs => cases h
+  | other => cases h
+
+example : periodOf (.str "2022-W02-7".toList) = .ok ⟨.weekday, ⟨2022, 1, 16⟩, 1⟩ ∧
+    instantOf (.str "2022-W02-7".toList) = .ok ⟨2022, 1, 16⟩ := by decide +kernel
+
+/-- What is not period-like is refused: `None`, a sequence (even one `instant` accepts), any other object. -/
+theorem C05_period_refuses (xs : List Int) :
+    (∃ e, periodOf .none = .error e) ∧ (∃ e, periodOf (.seq xs) = .error e) ∧ (∃ e, periodOf .other = .error e) ∧
+    (∃ e, instantOf .none = .error e) ∧ (∃ e, instantOf .other = .error e) :=
+  ⟨⟨_, rfl⟩, ⟨_, rfl⟩, ⟨_, rfl⟩, ⟨_, rfl⟩, ⟨_, rfl⟩⟩
+
+/-- `instant_date`: `None` stays `None`; an instant gives its calendar date exactly when it is one
+    (real month and day, year 1..9999), and is refused otherwise. -/
+theorem C05_instant_date (c : Date) :
+    instantDate none = .ok none ∧
+    (c.Valid ∧ c.y ≤ 9999 → instantDate (some c) = .ok (some c)) ∧
+    (¬ (c.Valid ∧ c.y ≤ 9999) → ∃ e, instantDate (some c) = .error e) := by
+  refine ⟨rfl, ?_, ?_⟩
+  · intro hv; simp only [instantDate]; rw [if_pos ((dateOk_iff c).2 hv)]
+  · intro hv; simp only [instantDate]
+    rw [if_neg (fun hh => hv ((dateOk_iff c).1 hh))]; exact ⟨_, rfl⟩
+
+example : instantDate (some ⟨2021, 2, 29⟩) = .error "date" ∧ instantDate (some ⟨2020, 2, 29⟩) = .ok (some ⟨2020, 2, 29⟩) := by
+  decide +kernel
+
+/-- An `Instant` (or a `datetime.date`) builds the same period as its own text: `period(Instant((2021, 9, 16)))`
+    is `period("2021-09-16")`, that one day. -/
+theorem C05_instant_is_its_text (c : Date) (hv : c.Valid) (h1 : 1000 ≤ c.y) (h2 : c.y ≤ 9999) :
+    periodOf (.str (instantText c)) = periodOf (.instant c) ∧
+    periodOf (.str (instantText c)) = periodOf (.date c) ∧
+    instantOf (.str (instantText c)) = instantOf (.instant c) := by
+  refine ⟨?_, ?_, C05_instant_roundtrip c hv h1 h2⟩
+  all_goals
+    obtain ⟨y, m, d⟩ := c
+    have hv' := hv
+    obtain ⟨_, hm1, hm2, hd1, hd2⟩ := hv'
+    simp only at hm1 hm2 hd1 hd2 h1 h2
+    obtain ⟨Y, rfl⟩ := Int.eq_ofNat_of_zero_le (show 0 ≤ y by omega)
+    obtain ⟨M, rfl⟩ := Int.eq_ofNat_of_zero_le (show 0 ≤ m by omega)
+    obtain ⟨D, rfl⟩ := Int.eq_ofNat_of_zero_le (show 0 ≤ d by omega)
+    have := dim_le (Y : Int) M
+    have hp4 : pad 4 Y = natDigits Y := by
+      unfold pad
+      have : (natDigits Y).length = 4 := by rw [natDigits4 Y (by omega) (by omega)]; rfl
+      simp only [this, Nat.sub_self, List.replicate_zero, List.nil_append]
+    show parsePeriod (instantText _) = _
+    unfold instantText
+    simp only [Int.toNat_natCast, hp4, List.append_assoc, List.cons_append, List.nil_append]
+    have hl := lex_ymd Y M D (by omega) (by omega) (by omega) (by omega) (by omega) (by omega)
+    have hi := iso_ymd Y M D (by omega) (by omega) hv
+    simp only [List.append_assoc, List.cons_append] at hl hi
+    rw [parse_plain' _ _ hl, hi]; rfl
+
+example : periodOf (.instant ⟨2021, 9, 16⟩) = parsePeriod "2021-09-16".toList := by decide +kernel
+
 end OFCore
